@@ -1112,6 +1112,12 @@ func (t *btr) assign(s *ast.AssignStmt) string {
 				return "(.prim .charsetsReset)"
 			case l == "vt.mode" && r == modeResetSrc:
 				return "(.prim .modeReset)"
+			case l == "vt.cursor.Style" && r == "vaxis.Style{}":
+				return "(.prim .penReset)"
+			case l == "vt.primaryState" && r == savedResetSrc:
+				return "(.prim .savedPReset)"
+			case l == "vt.altState" && r == savedResetSrc:
+				return "(.prim .savedAReset)"
 			case l == "vt.activeScreen" && r == "vt.altScreen":
 				return "(.prim .activeAlt)"
 			case l == "vt.activeScreen" && r == "vt.primaryScreen":
@@ -1223,6 +1229,7 @@ const (
 	stateCaptureSrc      = "cursorState{ cursor: vt.cursor, decawm: vt.mode.decawm, decom: vt.mode.decom, charsets: charsets{ selected: vt.charsets.selected, saved: vt.charsets.saved, designations: map[charsetDesignator]charset{ g0: vt.charsets.designations[g0], g1: vt.charsets.designations[g1], g2: vt.charsets.designations[g2], g3: vt.charsets.designations[g3], }, }, }"
 	charsetsFromStateSrc = "charsets{ selected: STATE.charsets.selected, saved: STATE.charsets.saved, designations: map[charsetDesignator]charset{ g0: STATE.charsets.designations[g0], g1: STATE.charsets.designations[g1], g2: STATE.charsets.designations[g2], g3: STATE.charsets.designations[g3], }, }"
 	charsetsResetSrc     = "charsets{ selected: 0, saved: 0, designations: map[charsetDesignator]charset{ g0: ascii, g1: ascii, g2: ascii, g3: ascii, }, }"
+	savedResetSrc        = "cursorState{ charsets: charsets{ designations: map[charsetDesignator]charset{ g0: ascii, g1: ascii, g2: ascii, g3: ascii, }, }, decawm: true, }"
 	modeResetSrc         = "mode{ decawm: true, dectcem: true, }"
 )
 
